@@ -833,6 +833,7 @@ type job struct {
 	o      options
 	p      program
 	ix     int64 // global index of the layout (the same in every worker)
+	again  bool  // differs from a layout of another family in the function code only: not counted as distinct
 }
 
 func main() {
@@ -879,11 +880,13 @@ func main() {
 		samples[family] = map[string]any{"family": family, "layout": describe(l), "values": vals, "reference_message": vk.Hex(ref)}
 	}
 
+	singleFixedTags := map[string]bool{}
 	add := func(family string, l layout, tuples [][]spec.KV, o options) {
 		ix := layouts
 		layouts++
 		if ix%int64(shards) == int64(shard) {
-			jobs = append(jobs, job{family: family, l: l, tuples: tuples, o: o, ix: ix})
+			again := family == "fixed-value-tags" && singleFixedTags[l.Fields[0].Tag]
+			jobs = append(jobs, job{family: family, l: l, tuples: tuples, o: o, ix: ix, again: again})
 		}
 	}
 	run := func(jb *job) {
@@ -893,7 +896,7 @@ func main() {
 		for j, vals := range tuples {
 			judge(p, l, vals, o, [2]int64{ix, int64(j)})
 			n++
-			if nontrivial(l, vals) {
+			if !jb.again && nontrivial(l, vals) {
 				d++
 			}
 			o.Reject, o.RejectAll = false, false // enforcement is a property of the layout: once, with the first tuple
@@ -916,6 +919,7 @@ func main() {
 	}
 	for _, fx := range [][2]any{{"85", 85}, {"0x55", 0x55}, {"0X5a", 0x5a}, {"0xA5", 0xa5}, {"0XFF", 0xff}, {"255", 255}, {"0", 0}, {"0x00", 0}, {"9", 9}, {"171", 171}} {
 		singles = append(singles, variant{Kind: spec.KFixed, Tag: fx[0].(string), Fixed: fx[1].(int)})
+		singleFixedTags[fx[0].(string)] = true
 	}
 	for vi, v := range singles {
 		for _, embedded := range []bool{false, true} {
@@ -1167,7 +1171,7 @@ func parent(r *vk.Run) {
 	if r.Thorough() {
 		third = "every ordered triple of the 21 kind variants, adjacent, at offsets 2, 30 and end-aligned x 4 embedding patterns (none, middle, outer two, all) x (baseline tuple + each field over its small alphabet)"
 	}
-	r.Rule("struct types generated with reflect.StructOf: (1) every single-field layout = 20 kinds (17 + pointer variants of Date, DateTime, HHmm; the fixed-value byte in 10 tag spellings) x every offset 2..63 at which the kind fits x plain/embedded x the kind's value alphabet (boundaries, walking bits, byte-distinct patterns, all 256 bytes; every HH:mm 00:00..24:00 and every IPv4 octet value at the first and last offset); (2) every two-field layout = every ordered pair of 21 kind variants (19 kinds + fixed byte written in decimal and in hex) x every offset of the first field x second field adjacent and right-aligned to byte 63 x 4 embedding patterns (none, second, first, both) x the cross product of the two small alphabets; (3) three-field layouts: " + third + "; (4) every function code 0..255 x every decimal/0x/0X/upper-case spelling x all 255 wrong codes on decode; (5) every fixed value 0..255 x every spelling at offsets 2, 33, 63 plain and embedded x all 255 wrong bytes, plus five values in every spelling at every other offset; (6) SOM tags 0x17/0x19 in every spelling (emission). A case is one (layout, value tuple); cases are pairwise distinct by construction (alphabets are duplicate-free, coinciding adjacent/right-aligned placements are generated once); non-trivial = the reference message has at least one non-zero byte after the function code")
+	r.Rule("struct types generated with reflect.StructOf: (1) every single-field layout = 20 kinds (17 + pointer variants of Date, DateTime, HHmm; the fixed-value byte in 10 tag spellings) x every offset 2..63 at which the kind fits x plain/embedded x the kind's value alphabet (boundaries, walking bits, byte-distinct patterns, all 256 bytes; every HH:mm 00:00..24:00 and every IPv4 octet value at the first and last offset); (2) every two-field layout = every ordered pair of 21 kind variants (19 kinds + fixed byte written in decimal and in hex) x every offset of the first field x second field adjacent and right-aligned to byte 63 x 4 embedding patterns (none, second, first, both) x the cross product of the two small alphabets; (3) three-field layouts: " + third + "; (4) every function code 0..255 x every decimal/0x/0X/upper-case spelling x all 255 wrong codes on decode; (5) every fixed value 0..255 x every spelling at offsets 2, 33, 63 plain and embedded x all 255 wrong bytes, plus five values in every spelling at every other offset; (6) SOM tags 0x17/0x19 in every spelling (emission). A case is one (layout, value tuple); cases are pairwise distinct by construction (alphabets are duplicate-free, coinciding adjacent/right-aligned placements are generated once, fixed-value layouts of (5) that repeat a tag spelling of (1) are not counted); non-trivial = the reference message has at least one non-zero byte after the function code")
 	r.Assume("reference encoders spec.KindEncode are written by hand from the protocol; reflect.StructOf types behave like declared struct types for the codec (same reflect API)")
 	r.Assume("time.Local = UTC (zone behaviour of dates belongs to C13/C05)")
 	r.Assume("function codes and tag spellings of the field layouts are assigned by a fixed arithmetic rule over (offset, kind); their full product is enumerated in family (4)")
